@@ -2233,11 +2233,11 @@ def correspond(ctx):
     if len(dis) <= 10:
         l2_random(ctx, 90 if quick else 900, 40 if quick else 120, dis)
     if len(dis) <= 10:
-        l2_option_variants(ctx, 18 if quick else 120, 30 if quick else 100, dis)
+        l2_option_variants(ctx, 18 if quick else 90, 30 if quick else 100, dis)
     if len(dis) <= 10:
         l2_cores(ctx, 250 if quick else 2500, dis)
     if len(dis) <= 10:
-        l2_cores_sim(ctx, 60 if quick else 300, dis, 4 if quick else 1)
+        l2_cores_sim(ctx, 60 if quick else 150, dis, 4 if quick else 1)
     if len(dis) <= 10:
         l3_memories(ctx, 300 if quick else 3000, dis)
     if len(dis) <= 10:
@@ -2264,7 +2264,7 @@ def correspond(ctx):
         bad4 = bad4 or b4
     ctx.cov.add_cases("design converted through SimPlatform.get_verilog (platform ios, sim overrides, both comb emitters)",
                       n4, n4, exhaustive=False)
-    n6, bad6 = systask_text_check(ctx.rng, 6 if quick else 80, 40)
+    n6, bad6 = systask_text_check(ctx.rng, 6 if quick else 40, 40)
     ctx.cov.add_cases("Display/Finish statements and the hierarchy block: real simulator vs independent reading of the text "
                       "(%d displayed lines compared, %d runs ended by Finish)" % (systask_text_check.lines, systask_text_check.finishes),
                       n6, n6, exhaustive=False)
